@@ -17,6 +17,7 @@ import ModVerif.Proofs.TieFnTlogProofHash
 import ModVerif.Proofs.TieFnTlogProofProve
 import ModVerif.Proofs.TieFnTlogProofIndex
 import ModVerif.Proofs.TieFnTlogProofTop
+import ModVerif.Proofs.TieFnTlogProofNeg
 import ModVerif.Proofs.TlogTH
 import ModVerif.Spec.RFC6962
 namespace ModVerif.Tie.FnTlogProof
@@ -168,19 +169,23 @@ the same for index lists appended to `need`, and `readOut dflt inv rerr` renders
 
 /-- `subTreeHash` — all panic cases included ("bad math", too few hashes, empty interval). -/
 theorem subTreeHash_tie (fuel : Nat) (lo hi : Int) (hashes : List H)
-    (h0 : 0 ≤ lo) (h0' : 0 ≤ hi) (h1 : hi < 2 ^ 63) (h2 : hi - lo + 1 < 2 ^ 63) (hf : (hi - lo).toNat + 1 ≤ fuel) :
+    (h0 : 0 ≤ lo) (h1 : hi < 2 ^ 63) (h2 : hi - lo + 1 < 2 ^ 63) (hf : (hi - lo).toNat + 1 ≤ fuel) :
     Generated.Tlog.subTreeHash node fuel lo hi hashes =
       toM (Tlog.subTreeHash node lo.toNat hi.toNat hashes) := by
-  have e1 : lo = (lo.toNat : Int) := by omega
-  have e2 : hi = (hi.toNat : Int) := by omega
-  rw [e1, e2]
-  simp only [Int.toNat_natCast]
-  exact subTreeHash_ok node fuel _ _ hashes (by omega) (by omega) (by omega)
+  by_cases h0' : 0 ≤ hi
+  · have e1 : lo = (lo.toNat : Int) := by omega
+    have e2 : hi = (hi.toNat : Int) := by omega
+    rw [e1, e2]
+    simp only [Int.toNat_natCast]
+    exact subTreeHash_ok node fuel _ _ hashes (by omega) (by omega) (by omega)
+  · rw [subTreeHash_empty node fuel lo hi hashes (by omega) (by omega),
+      subTreeHash_model_empty node _ _ hashes (by omega)]
+    rfl
 
 /-- non-vacuity: interval [4,7) = subtrees [4,6), [6,7); three hashes given, two consumed; and a panic case (too few) -/
 example : Generated.Tlog.subTreeHash TH.node 4 4 7 [TH.junk 0, TH.junk 1, TH.junk 2] =
     toM (Tlog.subTreeHash TH.node 4 7 [TH.junk 0, TH.junk 1, TH.junk 2]) :=
-  subTreeHash_tie TH.node 4 4 7 _ (by omega) (by omega) (by omega) (by omega) (by decide)
+  subTreeHash_tie TH.node 4 4 7 _ (by omega) (by omega) (by omega) (by decide)
 example :
     okIs (Generated.Tlog.subTreeHash TH.node 4 4 7 [TH.junk 0, TH.junk 1, TH.junk 2])
       (TH.node (TH.junk 0) (TH.junk 1), [TH.junk 2]) = true ∧
@@ -189,41 +194,49 @@ example :
     Generated.Tlog.subTreeHash TH.node 4 4 7 [TH.junk 0] = .error .panic ∧
     isErr (Tlog.subTreeHash TH.node 4 7 [TH.junk 0]) .panic = true := by
   refine ⟨by decide +kernel, by decide +kernel, ?_, by decide +kernel⟩
-  rw [subTreeHash_tie TH.node 4 4 7 _ (by omega) (by omega) (by omega) (by omega) (by decide)]
+  rw [subTreeHash_tie TH.node 4 4 7 _ (by omega) (by omega) (by omega) (by decide)]
   rfl
 
 /-- `leafProofIndex` -/
 theorem leafProofIndex_tie (fuel : Nat) (lo hi n : Int) (need : List Int)
-    (h0 : 0 ≤ lo) (h0' : 0 ≤ hi) (h0'' : 0 ≤ n) (h1 : hi ≤ 2 ^ 62) (hf : (hi - lo).toNat + 127 ≤ fuel) :
+    (h0 : 0 ≤ lo) (h0'' : 0 ≤ n) (h1 : hi ≤ 2 ^ 62) (hf : (hi - lo).toNat + 127 ≤ fuel) :
     Generated.Tlog.leafProofIndex fuel lo hi n need =
       subTreeIndexOut need (Tlog.leafProofIndex lo.toNat hi.toNat n.toNat) := by
-  have e1 : lo = (lo.toNat : Int) := by omega
-  have e2 : hi = (hi.toNat : Int) := by omega
-  have e3 : n = (n.toNat : Int) := by omega
-  rw [e1, e2, e3]
-  simp only [Int.toNat_natCast]
-  exact leafProofIndex_ok fuel _ _ _ _ need (by omega) (Nat.le_refl _) (by omega)
+  by_cases h0' : 0 ≤ hi
+  · have e1 : lo = (lo.toNat : Int) := by omega
+    have e2 : hi = (hi.toNat : Int) := by omega
+    have e3 : n = (n.toNat : Int) := by omega
+    rw [e1, e2, e3]
+    simp only [Int.toNat_natCast]
+    exact leafProofIndex_ok fuel _ _ _ _ need (by omega) (Nat.le_refl _) (by omega)
+  · have hz : hi.toNat = 0 := by omega
+    rw [leafProofIndex_neg fuel lo hi n need h0'' (by omega) (by omega), hz]
+    simp [Tlog.leafProofIndex, Tlog.leafProofIndexF, subTreeIndexOut]
 
 example : Generated.Tlog.leafProofIndex 134 0 7 2 [5] = subTreeIndexOut [5] (Tlog.leafProofIndex 0 7 2) :=
-  leafProofIndex_tie 134 0 7 2 [5] (by omega) (by omega) (by omega) (by omega) (by decide)
+  leafProofIndex_tie 134 0 7 2 [5] (by omega) (by omega) (by omega) (by decide)
 example : okIs (Generated.Tlog.leafProofIndex 134 0 7 2 [5]) [5, 2, 4, 9, 10] = true ∧
     isOk (Tlog.leafProofIndex 0 7 2) [2, 4, 9, 10] = true := by decide +kernel
 
 /-- `leafProof` -/
 theorem leafProof_tie (fuel : Nat) (lo hi n : Int) (hashes : List H)
-    (h0 : 0 ≤ lo) (h0' : 0 ≤ hi) (h0'' : 0 ≤ n) (h1 : hi < 2 ^ 63) (hf : (hi - lo).toNat + 1 ≤ fuel) :
+    (h0 : 0 ≤ lo) (h0'' : 0 ≤ n) (h1 : hi < 2 ^ 63) (hf : (hi - lo).toNat + 1 ≤ fuel) :
     Generated.Tlog.leafProof node fuel lo hi n hashes =
       toM (Tlog.leafProof node lo.toNat hi.toNat n.toNat hashes) := by
-  have e1 : lo = (lo.toNat : Int) := by omega
-  have e2 : hi = (hi.toNat : Int) := by omega
-  have e3 : n = (n.toNat : Int) := by omega
-  rw [e1, e2, e3]
-  simp only [Int.toNat_natCast]
-  exact leafProof_ok node fuel _ _ _ _ hashes (by omega) (Nat.le_refl _) (by omega)
+  by_cases h0' : 0 ≤ hi
+  · have e1 : lo = (lo.toNat : Int) := by omega
+    have e2 : hi = (hi.toNat : Int) := by omega
+    have e3 : n = (n.toNat : Int) := by omega
+    rw [e1, e2, e3]
+    simp only [Int.toNat_natCast]
+    exact leafProof_ok node fuel _ _ _ _ hashes (by omega) (Nat.le_refl _) (by omega)
+  · have hz : hi.toNat = 0 := by omega
+    rw [leafProof_neg node fuel lo hi n hashes h0'' (by omega) (by omega), hz]
+    simp [Tlog.leafProof, Tlog.leafProofF, toM]
 
 example : Generated.Tlog.leafProof TH.node 4 4 7 5 [TH.junk 0, TH.junk 1, TH.junk 2] =
     toM (Tlog.leafProof TH.node 4 7 5 [TH.junk 0, TH.junk 1, TH.junk 2]) :=
-  leafProof_tie TH.node 4 4 7 5 _ (by omega) (by omega) (by omega) (by omega) (by decide)
+  leafProof_tie TH.node 4 4 7 5 _ (by omega) (by omega) (by omega) (by decide)
 example :
     okIs (Generated.Tlog.leafProof TH.node 4 4 7 5 [TH.junk 0, TH.junk 1, TH.junk 2])
       ([TH.junk 0, TH.junk 1], [TH.junk 2]) = true ∧
@@ -232,36 +245,44 @@ example :
 
 /-- `treeProofIndex` -/
 theorem treeProofIndex_tie (fuel : Nat) (lo hi n : Int) (need : List Int)
-    (h0 : 0 ≤ lo) (h0' : 0 ≤ hi) (h0'' : 0 ≤ n) (h1 : hi ≤ 2 ^ 62) (hf : (hi - lo).toNat + 127 ≤ fuel) :
+    (h0 : 0 ≤ lo) (h0'' : 0 ≤ n) (h1 : hi ≤ 2 ^ 62) (hf : (hi - lo).toNat + 127 ≤ fuel) :
     Generated.Tlog.treeProofIndex fuel lo hi n need =
       subTreeIndexOut need (Tlog.treeProofIndex lo.toNat hi.toNat n.toNat) := by
-  have e1 : lo = (lo.toNat : Int) := by omega
-  have e2 : hi = (hi.toNat : Int) := by omega
-  have e3 : n = (n.toNat : Int) := by omega
-  rw [e1, e2, e3]
-  simp only [Int.toNat_natCast]
-  exact treeProofIndex_ok fuel _ _ _ _ need (by omega) (Nat.le_refl _) (by omega)
+  by_cases h0' : 0 ≤ hi
+  · have e1 : lo = (lo.toNat : Int) := by omega
+    have e2 : hi = (hi.toNat : Int) := by omega
+    have e3 : n = (n.toNat : Int) := by omega
+    rw [e1, e2, e3]
+    simp only [Int.toNat_natCast]
+    exact treeProofIndex_ok fuel _ _ _ _ need (by omega) (Nat.le_refl _) (by omega)
+  · have hz : hi.toNat = 0 := by omega
+    rw [treeProofIndex_neg fuel lo hi n need h0'' (by omega) (by omega), hz]
+    simp [Tlog.treeProofIndex, Tlog.treeProofIndexF, subTreeIndexOut]
 
 example : Generated.Tlog.treeProofIndex 134 0 7 3 [5] = subTreeIndexOut [5] (Tlog.treeProofIndex 0 7 3) :=
-  treeProofIndex_tie 134 0 7 3 [5] (by omega) (by omega) (by omega) (by omega) (by decide)
+  treeProofIndex_tie 134 0 7 3 [5] (by omega) (by omega) (by omega) (by decide)
 example : okIs (Generated.Tlog.treeProofIndex 134 0 7 3 [5]) [5, 2, 3, 4, 9, 10] = true ∧
     isOk (Tlog.treeProofIndex 0 7 3) [2, 3, 4, 9, 10] = true := by decide +kernel
 
 /-- `treeProof` -/
 theorem treeProof_tie (fuel : Nat) (lo hi n : Int) (hashes : List H)
-    (h0 : 0 ≤ lo) (h0' : 0 ≤ hi) (h0'' : 0 ≤ n) (h1 : hi < 2 ^ 63) (hf : (hi - lo).toNat + 2 ≤ fuel) :
+    (h0 : 0 ≤ lo) (h0'' : 0 ≤ n) (h1 : hi < 2 ^ 63) (hf : (hi - lo).toNat + 2 ≤ fuel) :
     Generated.Tlog.treeProof node fuel lo hi n hashes =
       toM (Tlog.treeProof node lo.toNat hi.toNat n.toNat hashes) := by
-  have e1 : lo = (lo.toNat : Int) := by omega
-  have e2 : hi = (hi.toNat : Int) := by omega
-  have e3 : n = (n.toNat : Int) := by omega
-  rw [e1, e2, e3]
-  simp only [Int.toNat_natCast]
-  exact treeProof_ok node fuel _ _ _ _ hashes (by omega) (Nat.le_refl _) (by omega)
+  by_cases h0' : 0 ≤ hi
+  · have e1 : lo = (lo.toNat : Int) := by omega
+    have e2 : hi = (hi.toNat : Int) := by omega
+    have e3 : n = (n.toNat : Int) := by omega
+    rw [e1, e2, e3]
+    simp only [Int.toNat_natCast]
+    exact treeProof_ok node fuel _ _ _ _ hashes (by omega) (Nat.le_refl _) (by omega)
+  · have hz : hi.toNat = 0 := by omega
+    rw [treeProof_neg node fuel lo hi n hashes h0'' (by omega) (by omega), hz]
+    simp [Tlog.treeProof, Tlog.treeProofF, toM]
 
 example : Generated.Tlog.treeProof TH.node 5 4 7 6 [TH.junk 0, TH.junk 1, TH.junk 2] =
     toM (Tlog.treeProof TH.node 4 7 6 [TH.junk 0, TH.junk 1, TH.junk 2]) :=
-  treeProof_tie TH.node 5 4 7 6 _ (by omega) (by omega) (by omega) (by omega) (by decide)
+  treeProof_tie TH.node 5 4 7 6 _ (by omega) (by omega) (by omega) (by decide)
 example :
     okIs (Generated.Tlog.treeProof TH.node 5 4 7 6 [TH.junk 0, TH.junk 1, TH.junk 2])
       ([TH.junk 0, TH.junk 1], [TH.junk 2]) = true ∧
